@@ -781,3 +781,11 @@ MANIFEST_ENTRY = dict(
           'trusted lemmas L1-L4; liveness (cap not hit) not decided. Known finding F12a (gamma=1 trap states) is reported as KNOWN-FINDING.'),
 )
 END_MANIFEST_ENTRY = True
+
+
+SENTINELS = globals().get('SENTINELS', []) + [
+    Sentinel('vi-vec-drops-the-discount', 'msdm.algorithms.valueiteration', '            discount_rate*future_action_values +\\\n',
+             '            future_action_values +\\\n', ['re:^vi_vec/unrolled/']),
+    Sentinel('vi-tab-stops-one-residual-too-early', 'msdm.algorithms.valueiteration', '        if residual < max_residual:\n            break\n    return state_values, action_values, i',
+             '        if residual < 10*max_residual:\n            break\n    return state_values, action_values, i', ['re:^vi_tab/cut/']),
+]
